@@ -22,9 +22,10 @@ from .c02 import run_cli
 LEVEL = "fault_enumeration"
 
 RULE = ("enumerated: server behaviour {200 JSON, 200 JSON padded with whitespace, 200 chunked JSON, 201 JSON, 200 JSON with BOM, 200 garbage, 200 "
-        "empty, 200 truncated JSON, 204 empty, 301 without Location, 400 / 401 / 404 with JSON and text bodies, 500, 503 with JSON body, "
+        "empty, 200 truncated JSON, 200 JSON followed by garbage / HTML / a second JSON value, complete JSON in an incomplete HTTP message "
+        "(short of Content-Length, chunked without terminator), 204 empty, 301 without Location, 400 / 401 / 404 with JSON and text bodies, 500, 503 with JSON body, "
         "connection refused, closed before headers, closed mid-body} x output {stdout, new file, existing file, existing file longer than the reply}; for each cell the "
-        "flags {--is-one-of, --specify-by-url} (4 combinations), header sets (odd spacing, colons / tabs in values, empty values, 3 "
+        "flags {--is-one-of, --specify-by-url} (4 combinations), header sets (odd spacing, colons / tabs / commas / quotes in values, empty values, 3 "
         "headers) and --authorization are cycled so that every value occurs with every behaviour class; plus the refused header "
         "strings (no colon, empty name, blank / tab inside the name) which must fail before any request. Schemas served come from "
         "the random schema generator. Non-trivial = every cell; distinct by (behaviour, output mode, flags, headers, auth)")
@@ -34,7 +35,9 @@ FLOOR = {"invocations": 60, "requests-checked": 40, "success-cells": 12, "failur
 
 HEADER_SETS = [[], ["X-Name: Value"], ["X-A:1", " X-B : v:1 "], ["X-Tab:\tT ", "X-Empty:", "Accept-Language: fr, en;q=0.5"], ["x-lower: é-latin"],
                # the same header name twice (and once more in another case): every --header must reach the server
-               ["X-Feature: alpha", "X-Feature: beta", "x-feature: gamma", "X-Other: 1"]]
+               ["X-Feature: alpha", "X-Feature: beta", "x-feature: gamma", "X-Other: 1"],
+               # commas, semicolons, equals signs and quotes belong to the value
+               ["X-List: a,b,c", "Cookie: a=1; b=\"2,3\"", "X-Comma: ,x,"]]
 BAD_HEADERS = ["X-Name Value", ": Value", "X Name: Value", "X\tName: Value", ":", "   : v"]
 
 
@@ -63,6 +66,13 @@ def behaviours(server_json):
         ("200-garbage", dict(behaviour="ok", body=b"<html>not json</html>", status=200, content_type="text/html"), "failure"),
         ("200-empty", dict(behaviour="ok", body=b"", status=200), "failure"),
         ("200-truncated-json", dict(behaviour="ok", body=good[: len(good) // 2], status=200), "failure"),
+        # a complete JSON value followed by something else is not a JSON body
+        ("200-json-then-garbage", dict(behaviour="ok", body=good + b" trailing}", status=200), "failure"),
+        ("200-json-then-html", dict(behaviour="ok", body=good + b"\n<html><body>upstream timed out</body></html>\n", status=200), "failure"),
+        ("200-two-json-values", dict(behaviour="ok", body=good + b"\n" + good, status=200), "failure"),
+        # the JSON value arrives whole but the HTTP message does not: a transport failure
+        ("closed-after-json-short-of-content-length", dict(behaviour="close-after-body-short-of-length", body=good, status=200), "failure"),
+        ("chunked-without-terminator", dict(behaviour="chunked-no-terminator", body=good, status=200), "failure"),
         ("204-empty", dict(behaviour="ok", body=b"", status=204), "failure"),
         ("301-no-location", dict(behaviour="ok", body=b"moved", status=301, content_type="text/plain"), "failure"),
         ("400-json", dict(behaviour="ok", body=b'{"errors":[{"message":"bad"}]}', status=400), "failure"),
